@@ -5,7 +5,7 @@ from __future__ import annotations
 
 import z3
 
-from .sym import Atom, EngineLimit, Sym, _lift, atom, engine, fresh
+from .sym import documented, Atom, EngineLimit, Sym, _lift, atom, engine, fresh
 
 
 def key_term(k):
@@ -77,14 +77,14 @@ class SymDict(dict):
 
     def __getitem__(self, k):
         if isinstance(k, tuple):
-            raise KeyError(k)
+            raise documented(KeyError(k))
         kt = key_term(k)
         for wk, wv in reversed(self.writes):
             if engine().decide(kt == wk):
                 return wv
         if self._init_get is not None and engine().decide(self._init_has(kt)):
             return self._init_get(kt)
-        raise KeyError(k)
+        raise documented(KeyError(k))
 
     def get(self, k, default=None):
         try:
